@@ -161,6 +161,7 @@ pub fn add_plan(rng: &mut Rng, profile: &str, tree: &Tree, inv: &mut Inv, oracle
         _ => vec![],
     };
     for _ in 0..nh {
+        let mut extra: Vec<Rule> = Vec::new();
         let mut w = [10u32, 10, 14, 14, 4, 4, 3, 3, 5];
         if readable_inputs.is_empty() {
             w[0] = 0;
@@ -190,7 +191,15 @@ pub fn add_plan(rng: &mut Rng, profile: &str, tree: &Tree, inv: &mut Inv, oracle
         ];
         let rule = match kinds[rng.weighted(&w)] {
             HardKind::OpenR => pick_position(rng, &readable_inputs).filter(|(p, _)| !listed_twice(p)).map(|(p, _)| {
-                Rule::new("openr", &p, 1, *rng.pick(&["EACCES", "EIO", "EMFILE", "ENOENT", "EPERM"]))
+                if rng.chance(0.25) {
+                    // the file cannot be looked at in any way: stat and lstat of the path fail too
+                    // (a directory the user may list but not search, a stale handle)
+                    let e = *rng.pick(&["EACCES", "EACCES", "EIO", "ESTALE"]);
+                    extra.push(Rule::new("stat", &p, 1, e));
+                    Rule::new("openr", &p, 1, e)
+                } else {
+                    Rule::new("openr", &p, 1, *rng.pick(&["EACCES", "EIO", "EMFILE", "ENOENT", "EPERM"]))
+                }
             }),
             HardKind::ReadMid => pick_position(rng, &readable_inputs).filter(|(p, _)| !listed_twice(p)).map(|(p, len)| {
                 let k = match rng.below(4) {
@@ -198,7 +207,12 @@ pub fn add_plan(rng: &mut Rng, profile: &str, tree: &Tree, inv: &mut Inv, oracle
                     1 => len,
                     _ => rng.below(len + 1),
                 };
-                Rule::new("read", &p, format!("+{}", k), "EIO")
+                if rng.chance(0.25) {
+                    // transient: fails once, then the file reads fine (a tool may give up or retry)
+                    Rule::new("tread", &p, format!("+{}", k), *rng.pick(&["ETIMEDOUT", "EAGAIN", "EIO"]))
+                } else {
+                    Rule::new("read", &p, format!("+{}", k), "EIO")
+                }
             }),
             HardKind::OpenW => pick_position(rng, &targets).filter(|(p, _)| !listed_twice(p)).map(|(p, _)| {
                 if rng.chance(0.15) {
@@ -231,5 +245,6 @@ pub fn add_plan(rng: &mut Rng, profile: &str, tree: &Tree, inv: &mut Inv, oracle
         if let Some(r) = rule {
             inv.plan.push(r);
         }
+        inv.plan.append(&mut extra);
     }
 }
